@@ -20,7 +20,7 @@ RULE = ("Configuration pool = algorithm variants (14 algorithms + wrappers over 
         "exceeded, d finite floats inside the box; get_last_point() is queried on a deep copy after rounds of a sparse set "
         "and at the end.  The quick tier takes a VERIF_SEED-rotated quarter of the (box, parameter) pool; thorough takes all.  "
         "distinct_nontrivial = executions whose point sequence has >= 2 distinct points.")
-ASSUMPTIONS = ["NumPy/CPython", "never-hangs is decided by counting branch/jump events (sys.monitoring) inside PyXAB code per API call, limit 2e6",
+ASSUMPTIONS = ["NumPy/CPython", "never-hangs is decided by counting branch/jump events (sys.monitoring) inside PyXAB code per API call, limit 5e6",
                "reward alphabet {0,-1,0.5,1e6}; magnitudes near float overflow not explored",
                "known findings (known_findings.json): POO rhomax<0.8323, VROOM on non-binary partitions, get_last_point before "
                "the first validation (StroquOOL, GPO/PCT/VPCT), GPO with floor(n/2N)=0"]
@@ -32,11 +32,9 @@ _BUDGET = None
 
 
 def budget():
-    global _BUDGET
-    if _BUDGET is None:
-        _BUDGET = StepBudget(configs.PKG_DIR)
-        _BUDGET.install()
-    return _BUDGET
+    from ..world import hang_guard
+
+    return hang_guard()
 
 
 class ConstSource(ChoiceSource):
